@@ -65,7 +65,7 @@ def work_cold(second):
 
 def work(item):
     kind, name, first, second, cold = item
-    warm = probe([first, second])
+    warm = probe((first if isinstance(first, list) else [first]) + [second])
     res = {"kind": kind, "name": name, "first": first, "second": second, "cold": cold["outcomes"][-1], "warm": warm["outcomes"][-1], "state_after": warm["state"], "state_cold": cold["state"]}
     same = norm(res["cold"]) == norm(res["warm"])
     state_ok = warm["state"] == cold["state"]
@@ -82,8 +82,8 @@ def probe(calls):
     p = subprocess.run(["/venv/bin/python", "/verif/vlib/c06_probe.py", json.dumps({{"calls": calls}})], capture_output=True, text=True)
     line = [l for l in p.stdout.splitlines() if l.startswith("C06PROBE ")][0]
     return json.loads(line[9:])
-cold, warm = probe([second]), probe([first, second])
-print("first  call:", first)
+cold, warm = probe([second]), probe((first if isinstance(first, list) else [first]) + [second])
+print("earlier call(s):", first)
 print("second call:", second)
 print("second call in a fresh interpreter ->", json.dumps(cold["outcomes"][-1])[:300], cold["state"])
 print("second call after the first one    ->", json.dumps(warm["outcomes"][-1])[:300], warm["state"])
@@ -192,6 +192,23 @@ def main():
                         if graph:
                             second = dict(second, graph=True)
                         items.append(("context-history", f"{c1['op']}[{ctx1 or 'plain'}] then {c2['op']}[{ctx2 or 'plain'}]" + (":graph" if graph else ""), first, second))
+    # (2c) factory histories: short-lived factory objects of different signature kinds, one call after the other
+    # (whatever einx remembers about a factory must not be attributed to a later, different factory)
+    fkinds = ["plain", "name", "arg_index", "signature", "kwargs", "partial", "partial-name", "method", "callable-object"]
+    if tier == "quick":
+        fkinds = ["plain", "name", "kwargs", "partial", "method", "callable-object"]
+    fcalls = [
+        lambda k: {"op": "add", "desc": "a b, b -> a b", "shapes": [[2, 3], "factory:" + k], "kwargs": {}},
+        lambda k: {"op": "dot", "desc": "a [b], [b] -> a", "shapes": [[2, 3], "factory:" + k], "kwargs": {}},
+    ]
+    for k1 in fkinds:
+        for k2 in fkinds:
+            if k1 == k2:
+                continue
+            for fi, f1 in enumerate(fcalls):
+                for f2 in (fcalls if tier == "thorough" else fcalls[fi : fi + 1]):
+                    # several short-lived factories of the first kind (each one is freed before the next is made)
+                    items.append(("factory-history", f"{k1} x4 then {k2}", [f1(k1)] * 4, f2(k2)))
     # (3) failing call followed by a valid one, and a valid call repeated after the failing one of the same key family
     for fname, failing in FAILING:
         items.append(("failure-hygiene", fname, failing, GOOD))
